@@ -22,6 +22,11 @@ Definition t_e : ty := TEnum (S "E") [(S "A", VUnit); (S "B", VUnit)].
 Definition t_e2 : ty := TEnum (S "E2") [(S "N", VNewtype i64); (S "S", VStruct [(S "x", i64)]); (S "U", VUnit)].
 Definition t_e3 : ty :=
   TEnum (S "E3") [(S "N", VNewtype (TDatetime KDate)); (S "T", VTuple [i64; i64]); (S "S", VStruct [(S "x", i64)]); (S "U", VUnit)].
+(* round 5: a newtype variant whose payload is a TABLE (header, inline or dotted form) with a struct nested in it,
+   and the same payload inside a sequence: an error deep inside the payload must keep its own span *)
+Definition t_sub4 : ty := st "Sub4" [("x", i64)]%string.
+Definition t_inner4 : ty := st "Inner4" [("host", TStr); ("port", i64); ("sub", TOpt t_sub4)]%string.
+Definition t_e4 : ty := TEnum (S "E4") [(S "P", VNewtype t_inner4); (S "L", VNewtype (TSeq t_sub4)); (S "U", VUnit)].
 Definition t_sdeny : ty := st "SDeny" [("a", i64)]%string.
 Definition t_outer2 : ty := st "Outer2" [("u", TOpt t_inner)]%string.
 Definition t_c1 : ty := st "C1" [("d", TBool)]%string.
@@ -70,6 +75,8 @@ Definition ty_of_tag (tag : bytes) : option ty :=
   else if is "vecvec"%string then Some (st "VV" [("v", TSeq (TSeq i64))]%string)
   else if is "mapenum"%string then Some (st "ME" [("m", TMap t_e i64)]%string)
   else if is "mapinner"%string then Some (st "MI" [("m", TMap TStr t_inner)]%string)
+  else if is "enum4"%string then Some (st "SE4" [("e", t_e4)]%string)
+  else if is "venum4"%string then Some (st "VE4" [("v", TSeq t_e4)]%string)
   else None.
 
 (* #[serde(deny_unknown_fields)] in `mod ty` *)
